@@ -25,3 +25,83 @@ impl<T: CancelIo> CancelImpl<T> {
         }
     }
 }
+
+static mut PANICKING_NOW: bool = false;
+fn panicking_stub() -> bool {
+    unsafe { PANICKING_NOW }
+}
+
+//@ obligation: C09.1a
+//@ property: C09
+//@ kind: K1
+//@ complete: yes
+//@ functions: CancelImpl::new, CancelImpl::is_canceled, CancelImpl::is_disabled, CancelImpl::disable_cancel, CancelImpl::enable_cancel, CancelImpl::check_cancel, CancelImpl::clear_cancel_bit
+//@ statement: cancel state machine over the cancel bit and every disable depth 0..=3: is_canceled iff the bit is set and cancel is not disabled;
+//@ statement: is_disabled iff depth > 0; disable/enable are inverse and never touch the bit; check_cancel raises the cancel panic iff is_canceled and the
+//@ statement: thread is not already panicking, and consumes the passed-in result first in every cancelled case; a coroutine whose bit was never set
+//@ statement: never sees the panic; clear_cancel_bit clears only the bit
+#[kani::proof]
+#[kani::stub(crate::scheduler::get_scheduler, sup::get_scheduler_stub)]
+#[kani::stub(<crate::park::Park as std::ops::Drop>::drop, sup::park_drop_noop)]
+#[kani::stub(crate::cancel::trigger_cancel_panic, sup::cancel_panic_stub)]
+#[kani::stub(std::thread::panicking, panicking_stub)]
+#[kani::unwind(5)]
+fn c09_1a_cancel_state_machine() {
+    let h = sup::enter_coroutine();
+    let c = sup::cancel_of(h);
+    assert!(!c.is_canceled() && !c.is_disabled() && c.vk_state() == 0, "[C09.1-fresh] a fresh coroutine is neither cancelled nor cancel-disabled");
+    let depth: usize = kani::any();
+    kani::assume(depth <= 3);
+    let bit: bool = kani::any();
+    let mut i = 0;
+    while i < 3 {
+        if i < depth {
+            c.disable_cancel();
+        }
+        i += 1;
+    }
+    if bit {
+        c.vk_set_cancel_bit();
+    }
+    assert!(c.is_canceled() == (bit && depth == 0), "[C09.1-is-canceled] is_canceled iff the cancel bit is set and cancel is not disabled");
+    assert!(c.is_disabled() == (depth > 0), "[C09.1-is-disabled] is_disabled iff a disable is outstanding");
+    // check_cancel
+    let panicking: bool = kani::any();
+    let pending: bool = kani::any();
+    unsafe {
+        PANICKING_NOW = panicking;
+        EXPECT_PANIC = bit && depth == 0 && !panicking;
+        sup::ON_CANCEL_PANIC = Some(at_cancel_panic);
+    }
+    if pending {
+        sup::set_current_para(Some(std::io::Error::from(std::io::ErrorKind::Other)));
+    }
+    c.check_cancel();
+    // returned: no panic was raised
+    assert!(!(bit && depth == 0 && !panicking), "[C09.1-panics-when-cancelled] check_cancel must raise the cancel panic for a cancelled coroutine");
+    if bit && depth == 0 {
+        assert!(!sup::current_para_is_some(), "[C09.1-consumes-result] check_cancel consumes the passed-in result of a cancelled coroutine even when it does not panic");
+    } else {
+        assert!(sup::current_para_is_some() == pending, "[C09.1-leaves-result] check_cancel leaves the passed-in result alone when the coroutine is not cancelled");
+    }
+    // enable again
+    let mut i = 0;
+    while i < 3 {
+        if i < depth {
+            c.enable_cancel();
+        }
+        i += 1;
+    }
+    assert!(c.vk_state() == if bit { 1 } else { 0 }, "[C09.1-disable-enable-inverse] disable/enable are inverse and do not touch the cancel bit");
+    c.clear_cancel_bit();
+    assert!(c.vk_state() == 0 && !c.is_canceled(), "[C09.1-clear-bit] clear_cancel_bit clears the bit");
+    kani::cover!(bit && depth > 0, "cancelled while disabled");
+    sup::leave_coroutine();
+}
+
+static mut EXPECT_PANIC: bool = false;
+fn at_cancel_panic() {
+    kani::cover!(true, "cancel panic raised");
+    assert!(unsafe { EXPECT_PANIC }, "[C09.1-no-spurious-panic] the cancel panic is raised for a coroutine that is not cancelled, has cancel disabled, or is already unwinding");
+    assert!(!sup::current_para_is_some(), "[C09.1-consumes-result-before-panic] the passed-in result is consumed before the cancel panic (it must not leak into the next coroutine on this stack)");
+}
